@@ -8,12 +8,12 @@ def coq_op(op):
     name, args = op
     return {"pub": "OpPub %d" % (args[0] if args else 0), "cons": "OpCons", "len": "OpLen"}[name]
 
-def mk_case(N, origin, progs, sched, meta=None):
-    line = "ring N=%d origin=%d ; " % (N, origin) + " ; ".join(
+def mk_case(N, origin, progs, sched, meta=None, kind="ring"):
+    line = "%s N=%d origin=%d ; " % (kind, N, origin) + " ; ".join(
         " ".join(n if not a else n + ":" + ":".join(str(x) for x in a) for n, a in p) for p in progs) + " ; S " + " ".join(map(str, sched))
-    coq = "run_case32 %d %d [%s] [%s]%%nat" % (N, origin, "; ".join("[" + "; ".join(coq_op(o) for o in p) + "]" for p in progs),
+    coq = "%s %d %d [%s] [%s]%%nat" % ("run_case32" if kind == "ring" else "run_case_fs32", N, origin, "; ".join("[" + "; ".join(coq_op(o) for o in p) + "]" for p in progs),
                                             "; ".join(map(str, sched)))
-    m = dict(N=N, origin=origin, progs=progs, sched=sched)
+    m = dict(N=N, origin=origin, progs=progs, sched=sched, kind=kind)
     m.update(meta or {})
     return Case(line, coq, m)
 
@@ -32,7 +32,7 @@ def parse_case_line(line):
                 parts = tok.split(":")
                 prog.append((parts[0], [int(x) for x in parts[1:]]))
             progs.append(prog)
-    return mk_case(int(params.get("N", 4)), int(params.get("origin", 0)), progs, sched)
+    return mk_case(int(params.get("N", 4)), int(params.get("origin", 0)), progs, sched, kind=head[0])
 
 def random_sched(rng, nthreads, length, burst=0.6):
     sched, cur = [], rng.randrange(nthreads)
@@ -41,7 +41,7 @@ def random_sched(rng, nthreads, length, burst=0.6):
         sched.append(cur)
     return sched
 
-def gen_case(rng, Ns=(2, 4, 8), origin=0, max_threads=4, max_ops=5, profile=None):
+def gen_case(rng, Ns=(2, 4, 8), origin=0, max_threads=4, max_ops=5, profile=None, kind="ring"):
     N = rng.choice(Ns)
     nthreads = rng.randint(2, max_threads)
     profile = profile or rng.choice(["mixed", "fill", "drain", "pc", "contend_full", "contend_empty"])
@@ -63,7 +63,7 @@ def gen_case(rng, Ns=(2, 4, 8), origin=0, max_threads=4, max_ops=5, profile=None
     # then everybody runs to completion, round robin
     for _ in range(6 * max_ops + 8):
         sched += list(range(nthreads))
-    return mk_case(N, origin, progs, sched, {"profile": profile})
+    return mk_case(N, origin, progs, sched, {"profile": profile}, kind=kind)
 
 # ------------------------------------------------------------------------------------------- oracles
 def call_intervals(recs):
